@@ -104,9 +104,14 @@ func (s *state) removeTorrent(h core.InfoHash, err error) {
 	if !ok {
 		return
 	}
+	// A complete torrent may still be in the announce queue: one that was opened
+	// complete (served from the cache) never left it, and one whose completion event
+	// has not been applied yet has not been ejected by it. Left behind, the entry would
+	// be marked as announcing by the next tick and queued a second time when the
+	// torrent is added again.
+	s.announceQueue.Eject(h)
 	if !ctrl.dispatcher.Complete() {
 		ctrl.dispatcher.TearDown()
-		s.announceQueue.Eject(h)
 		for _, errc := range ctrl.errors {
 			errc <- err
 		}
